@@ -10,7 +10,9 @@ from .graph_utils import (merge_graphs,
                           sort_nodes_by_attr,
                           set_atom_names_atomistic)
 from .pysmiles_utils import rebuild_h_atoms, compute_mass
-from .cgsmiles_utils import find_open_bonds, find_complementary_bonding_descriptor
+from .cgsmiles_utils import (find_open_bonds,
+                             find_complementary_bonding_descriptor,
+                             split_bonding_descriptor)
 
 logger = logging.getLogger(__name__)
 
@@ -296,7 +298,7 @@ class MoleculeSampler:
         molecule.add_edge(source_node,
                           correspondence[target_node],
                           bonding=(bonding, compl_bonding),
-                          order = int(bonding[-1]))
+                          order = split_bonding_descriptor(bonding)[1])
         molecule.nodes[source_node]['bonding'].remove(bonding)
         molecule.nodes[correspondence[target_node]]['bonding'].remove(compl_bonding)
 
